@@ -510,6 +510,13 @@ Definition ti_op_ok (A : list cluster) (o : ti_op) : Prop :=
   | _ => True
   end.
 
+(* a text derived from the text an editor holds: made of clusters of the current text and of
+   alphabet clusters — the current text itself, a prefix or suffix of it, the text twice, the
+   text extended or with another last cluster, the same line in another normalisation form
+   (the arguments of the programmatic edits SetContent / InsertStringAtCursor that code
+   with an "unchanged" shortcut would treat specially) *)
+Definition derived_from {G} (A cur ks : list G) : Prop := Forall (fun c => In c cur \/ In c A) ks.
+
 (* ===================================================================== correspondence *)
 
 (* the oracle answers shipped with one step *)
